@@ -20,7 +20,7 @@ Current state (the live tables `G`):
   classes.  Per-construct facts: `C17_cast_ok`, `C17_param_ok`, `C17_unop_iff`, `C17_table_position`, `C17_create_table_ok`,
   `C17_insert_dup_iff`, and for function names `C17_func_name_ok` (the lookup on `sa.func` raises only NotImplementedError, for
   EVERY name), `C17_func_post_iff`, `C17_live_func_names` (the live table: `__repr__`, `__hash__`, `opts`, every `__x` refused;
-  `count`, `a_`, `_` are SQL functions).
+  the all-underscore name `_` refused too; `count`, `a_`, `_x` are SQL functions).
 * **T17.3 mutation** `C17_no_mutation`: the column loop of `prepare_create_table` returns the caller's columns as they were
   (true by construction of the model; the content is the tie: the `create-table-columns` stream, the pinned absence of any
   attribute store / aliased container write on the tree — `pins.attrStores`, `pins.paramWrites` — and the snapshot probe).
@@ -43,7 +43,7 @@ def G : Tables :=
   { typesMap := SaTables.typesMapKeys, methods := SaTables.methods, functions := SaTables.functionsKeys,
     opmap := SaTables.opmap, listOps := SaTables.listOps, textHas := SaTables.textHas,
     tupleIsList := SaTables.tupleIsList, dupExc := excOfProbe SaTables.dupExc,
-    funcPyAttrs := SaTables.funcPyAttrs, funcGuard := SaTables.funcGuard }
+    funcPyAttrs := SaTables.funcPyAttrs, funcGuard := SaTables.funcGuard, funcEmptyGuard := SaTables.funcEmptyGuard }
 
 /-- the tables with Tuples rendered as `sa.tuple_`, `RenderError` a SQLAlchemyError and python-attribute function names
 refused, whatever the probes say
@@ -52,7 +52,7 @@ def Gr : Tables := { G with tupleIsList := false, dupExc := .sa, funcGuard := tr
 
 /-- the tables as they were BEFORE those repairs (`to_expression(Tuple)` a Python list, `RenderError` a plain
 `Exception`, `getattr(sa.func, '__repr__')` called like a SQL function): only used by the regression theorems -/
-def Gold : Tables := { G with tupleIsList := true, dupExc := .exception, funcGuard := false }
+def Gold : Tables := { G with tupleIsList := true, dupExc := .exception, funcGuard := false, funcEmptyGuard := false }
 
 /-- what the hand model hard-codes about the source, pinned against the regenerated data -/
 theorem pins :
@@ -198,7 +198,7 @@ theorem C17_func_name_ok (tb : Tables) (name : String) (d hf : Bool) (al : Al) (
   simp only [isStructural]
   unfold funcNameRaise
   cases funcClass tb name with
-  | gen => rfl
+  | gen => cases (tb.funcEmptyGuard && name.toList.all (· == '_')) <;> rfl
   | missing => rfl
   | pyattr => cases tb.funcGuard <;> rfl
 
@@ -332,14 +332,16 @@ theorem C17_regression_tuple_operand :
   decide
 
 /-- the live lookup table: every attribute name of the Python object `sa.func` (`__repr__`, `__hash__`, `__str__`, `opts`, …)
-and every other `__x` name is refused with NotImplementedError; ordinary names, names ending in `_` and `_` itself are SQL
-functions -/
+and every other `__x` name is refused with NotImplementedError, and so is a name made of underscores only (`_`: sa.func strips
+the underscore and the function would get the empty name); ordinary names and names ending in `_` are SQL functions -/
 theorem C17_live_func_names :
     (SaTables.funcPyAttrs.all fun p => funcNameRaise G p.1 == some .notImpl) = true
     ∧ funcNameRaise G "__repr__" = some .notImpl ∧ funcNameRaise G "__hash__" = some .notImpl
     ∧ funcNameRaise G "__str__" = some .notImpl ∧ funcNameRaise G "opts" = some .notImpl
     ∧ funcNameRaise G "__a__" = some .notImpl ∧ funcNameRaise G "__" = some .notImpl
-    ∧ funcNameRaise G "count" = none ∧ funcNameRaise G "a_" = none ∧ funcNameRaise G "_" = none ∧ funcNameRaise G "class" = none
+    ∧ funcNameRaise G "_" = some .notImpl ∧ funcNameRaise G "___" = some .notImpl   -- all underscores: empty after sa.func's stripping
+    ∧ funcNameRaise G "count" = none ∧ funcNameRaise G "a_" = none ∧ funcNameRaise G "_x" = none ∧ funcNameRaise G "class" = none
+    ∧ SaTables.funcEmptyGuard = true
     ∧ saRaises G false .stmt (sel [.mk (.func "__repr__" false false none) []]) = some .notImpl := by decide
 
 /-- REGRESSION (old tables `Gold`: no guard on python-attribute names): `select __repr__()` / `select __hash__()` leaked an
@@ -348,7 +350,9 @@ theorem C17_regression_func_pyattr :
     saRaises Gold false .stmt (sel [.mk (.func "__repr__" false false none) []]) = some .attr
     ∧ saRaises Gold false .stmt (sel [.mk (.func "__hash__" false false none) []]) = some .attr
     ∧ saRaises Gold false .stmt (sel [.mk (.func "__a__" false false none) []]) = some .notImpl
-    ∧ clean Gold false .stmt (sel [.mk (.func "__repr__" false false none) []]) = false := by decide
+    ∧ clean Gold false .stmt (sel [.mk (.func "__repr__" false false none) []]) = false
+    -- before 3ffafef the name `_` passed the renderer's own code (SQLAlchemy then failed on the empty name at compile time)
+    ∧ funcNameRaise Gold "_" = none ∧ saRaises Gold false .stmt (sel [.mk (.func "_" false false none) []]) = none := by decide
 
 /-- REGRESSION (old tables `Gold`: `RenderError` a plain `Exception`): `insert into t (a, a) values (1, 2)` → RenderError,
 which went through the fallback -/
